@@ -34,7 +34,7 @@ def parseEntry (s : String) : Option (RPath × Obj) :=
       | "d" => some (rp, .dir a (parseMtime t))
       | "f" => some (rp, .file xb a (parseMtime t))
       | "l" => some (rp, .symlink xb a (parseMtime t))
-      | "v" => some (rp, .dev 0 0 a (parseMtime t))
+      | "v" => some (rp, .dev 0 0 0 a (parseMtime t))
       | _ => none
     | _, _ => none
   | _ => none
@@ -57,7 +57,7 @@ def entryStr (e : RPath × Obj) : String :=
   | .dir a m => s!"{p}|d||{mtStr m}|{attrStr a}"
   | .file d a m => s!"{p}|f|{toHex d}|{mtStr m}|{attrStr a}"
   | .symlink t a m => s!"{p}|l|{toHex t}|{mtStr m}|{attrStr a}"
-  | .dev _ _ a m => s!"{p}|v||{mtStr m}|{attrStr a}"
+  | .dev _ _ _ a m => s!"{p}|v||{mtStr m}|{attrStr a}"
 
 def cmdLfsUntar (a : Args) : String :=
   match a.bytes "root", a.bytes "bytes" with
